@@ -600,6 +600,89 @@ func C03(c *core.Ctx) {
 	}
 	c.Floor("R3.5", "chunked copy loops in std/encoding", nCopy, 1)
 
+	// ---- R3.7 a value of the packet API is narrowed to a one-octet element only behind an
+	// upper bound: the conversion helper ConvIntPtr[wide, byte] is reachable only on edges
+	// asserting that the source is absent or at most 255 (otherwise 256 encodes as 0).
+	// ---- R3.8 MakeInterest encodes from a private copy of the name: the Interest encoder
+	// drops a trailing digest component from, and appends one to, the name it is given, and
+	// the digest is patched into that component afterwards.
+	{
+		nNarrow := 0
+		for _, fn := range p.FuncsIn(core.ModPath + "/std/ndn/spec_2022") {
+			if strings.HasSuffix(p.File(fn.Pos()), "_test.go") || strings.HasSuffix(p.File(fn.Pos()), "zz_generated.go") {
+				continue
+			}
+			core.Instrs(fn, func(in ssa.Instruction) {
+				cl, ok := in.(*ssa.Call)
+				if !ok {
+					return
+				}
+				cal := cl.Call.StaticCallee()
+				if cal == nil || cal.Origin() == nil || cal.Origin().Name() != "ConvIntPtr" || len(cal.TypeArgs()) != 2 || len(cl.Call.Args) != 1 {
+					return
+				}
+				to, okT := cal.TypeArgs()[1].Underlying().(*types.Basic)
+				from, okF := cal.TypeArgs()[0].Underlying().(*types.Basic)
+				if !okT || !okF || to.Kind() != types.Uint8 || from.Kind() == types.Uint8 {
+					return
+				}
+				nNarrow++
+				c.Funcs[core.FuncName(fn)] = true
+				arg := cl.Call.Args[0]
+				small := &core.Atom{Name: "value ≤ 255", Match: func(cond ssa.Value) (int, int) {
+					op, x, y, okC := core.Cmp(cond)
+					if !okC {
+						return 0, 0
+					}
+					k, isC := core.ConstInt(y)
+					if !isC {
+						return 0, 0
+					}
+					u, isU := core.StripConv(x).(*ssa.UnOp)
+					if !isU || u.Op != token.MUL || !(u.X == arg || core.Same(u.X, arg)) {
+						return 0, 0
+					}
+					switch {
+					case op == token.GTR && k <= 255, op == token.GEQ && k <= 256:
+						return -1, 1
+					case op == token.LEQ && k <= 255, op == token.LSS && k <= 256:
+						return 1, -1
+					}
+					return 0, 0
+				}}
+				present := atomNonNil("source present", arg)
+				g := core.GateDeep(fn, []ssa.Instruction{in}, pos(small), neg(present))
+				c.Decide(g.OK && g.PerLit[0] > 0, "R3.7", "one-octet-element-bounded:"+core.FuncName(fn)+":"+describeValue(arg), c.Pos(in), "the narrowing to one octet is reachable only for an absent source or a value ≤ 255", core.FuncName(fn)+" narrows "+describeValue(arg)+" to a one-octet element without an upper bound: a value above 255 is silently encoded as another value (256 → 0, 300 → 44) and decodes as that")
+			})
+		}
+		c.Floor("R3.7", "narrowings of an API value to one octet", nNarrow, 1)
+		if mi := c.Fn("R3.8", "std/ndn/spec_2022", "Spec", "MakeInterest"); mi != nil {
+			nSt := 0
+			core.Instrs(mi, func(in ssa.Instruction) {
+				_, v, ok := storeToField(in, "Interest", "NameV")
+				if !ok {
+					return
+				}
+				nSt++
+				owned := false
+				switch x := core.Strip(v).(type) {
+				case *ssa.MakeSlice:
+					owned = true
+				case *ssa.Call:
+					if id, okID := core.Callee(&x.Call); okID && (id.Name == "Clone" || id.Name == "Clip") {
+						owned = true
+					}
+				case *ssa.Slice:
+					if _, isMk := core.Strip(x.X).(*ssa.MakeSlice); isMk {
+						owned = true
+					}
+				}
+				c.Decide(owned, "R3.8", "interest-name-is-private-copy", c.Pos(in), "MakeInterest encodes from a slice of its own", "MakeInterest hands the caller's name slice to the Interest encoder, which drops a trailing digest component from it and appends a fresh one in place (the digest is patched in afterwards): with spare capacity a second MakeInterest from the same name rewrites the FinalName of the first Interest — decoding its wire no longer yields the name it reports")
+			})
+			c.Floor("R3.8", "stores of the Interest name in MakeInterest", nSt, 1)
+		}
+	}
+
 	// ---- R3.6 the segmented reader steps over EVERY exhausted segment: a wire may hold
 	// empty segments, also several in a row (the no-copy encoder emits one for an empty
 	// content buffer). Every store that advances a WireReader's segment index inside a
